@@ -6,7 +6,9 @@
 /*@ ghost */
 #define GR_FINITE (!isnan(X) && !isnan(Y) && !isnan(Z) && !isinf(X) && !isinf(Y) && !isinf(Z))
 /*@ clause pre.ellipsoid src=constructor */
-/* what the constructor establishes: a > 0 finite, f < 1, e2 = f(2-f), e2m = (1-f)^2 > 0, e2a = |e2|, e4a = e2^2 */
+/* the constructor's postcondition (Geocentric_Geocentric.c proves the sign facts, e2 == f(2-f) and e2a == |e2|); the two
+   squares e2m == (1-f)^2 and e4a == e2^2 are read off its initialiser list and ASSUMED here (re-proving them means proving two
+   multiplier circuits equal, which the SAT back end does not finish) */
 __CPROVER_requires(self->_a > 0.0 && !isinf(self->_a) && self->_f < 1.0 && !isinf(self->_f) &&
                    self->_e2 == self->_f * (2 - self->_f) && self->_e2m > 0.0 && self->_e2m == (1 - self->_f) * (1 - self->_f) &&
                    self->_e2a == fabs(self->_e2) && self->_e4a == self->_e2 * self->_e2 && self->_maxrad > 0.0 && !isnan(self->_maxrad))
